@@ -494,6 +494,7 @@ func runHistory(c *command, obs *observation) {
 	}
 	order := []objKey{}
 	current := map[objKey]cur{}
+	trackerLost := false
 	put := func(kind string, raw json.RawMessage) {
 		k := keyOf(kind, raw)
 		if _, ok := current[k]; !ok {
@@ -574,8 +575,29 @@ func runHistory(c *command, obs *observation) {
 				for _, r := range op.Pods {
 					put("Pod", r)
 				}
+			} else {
+				// SetResources applies namespaces, then policies, then pods, and stops at the first failing insertion:
+				// what was inserted before that point stays.  The only failure the histories provoke is a NetworkPolicy
+				// that already exists; anything else makes the tracked object set unreliable for the rest of the history.
+				for _, r := range op.Nss {
+					put("Namespace", r)
+				}
+				found := false
+				if strings.Contains(res, "already exists") {
+					for _, r := range op.Nps {
+						if _, ok := current[keyOf("NetworkPolicy", r)]; ok {
+							found = true
+							break
+						}
+						put("NetworkPolicy", r)
+					}
+				}
+				if !found {
+					trackerLost = true
+				}
 			}
 		case "clear":
+			trackerLost = false
 			pe.ClearResources()
 			order = []objKey{}
 			current = map[objKey]cur{}
@@ -583,7 +605,9 @@ func runHistory(c *command, obs *observation) {
 		case "query":
 			obs.Answers = append(obs.Answers, safeQuery(pe, op.Q))
 			obs.OpErrs = append(obs.OpErrs, "q")
-			if c.Fresh {
+			if c.Fresh && trackerLost {
+				obs.FreshAns = append(obs.FreshAns, "fresh-build-failed: the tracked object set is unreliable after a failed SetResources")
+			} else if c.Fresh {
 				// a fresh engine holding the same current objects, inserted in a canonical order:
 				// namespaces, pods/workloads, network policies, ANPs sorted by priority, BANP
 				fresh := eval.NewPolicyEngine()
